@@ -99,13 +99,19 @@ class ArD:
         self.bad(n)
 
     def cond(self, n):
-        """`a < b` / `a > b` -> Bool term"""
-        if isinstance(n, ast.Compare) and len(n.ops) == 1:
-            l, r = self.tr(n.left), self.tr(n.comparators[0])
-            if isinstance(n.ops[0], ast.Lt):
-                return f"(DArith.lt {l} {r})"
-            if isinstance(n.ops[0], ast.Gt):
-                return f"(DArith.lt {r} {l})"
+        """`a < b` / `a > b` / `a < b < c` -> Bool term"""
+        if isinstance(n, ast.Compare) and len(n.ops) >= 1:
+            terms = [self.tr(n.left)] + [self.tr(c) for c in n.comparators]
+            parts = []
+            for k, op in enumerate(n.ops):
+                l, r = terms[k], terms[k + 1]
+                if isinstance(op, ast.Lt):
+                    parts.append(f"(DArith.lt {l} {r})")
+                elif isinstance(op, ast.Gt):
+                    parts.append(f"(DArith.lt {r} {l})")
+                else:
+                    self.bad(n)
+            return parts[0] if len(parts) == 1 else "(" + " && ".join(parts) + ")"
         self.bad(n)
 
 
@@ -633,9 +639,9 @@ def _scq_compiler(ps):
     drag = args["DRAG"].value
     if shape != "hann" or not isinstance(nsamp, int) or not isinstance(drag, bool):
         raise TranslatorError("SCQubitsCompiler: default shape is not 'hann' / num_samples not an int / DRAG not a bool")
-    # _rotation_compiler
+    # _rotation_compiler: the shape before fixes/C18-3.patch (maximum and area inside the call) or after it (amplitude
+    # floor for small angles)
     rot = _meth(cls, "_rotation_compiler")
-    rot_area, rb = _rotation_area(rot, src, "SCQubitsCompiler", 5)
     tail = """
 if args["DRAG"]:
     pulse_info = self._drag_pulse(op_label, coeff, tlist, targets[0])
@@ -646,8 +652,32 @@ elif op_label == "sy":
 else:
     raise RuntimeError("Unknown label.")
 """
-    if not (len(rb) == 5 and _same_stmt(rb[2], 'f = 2 * np.pi * self.params["wq"][targets[0]]')
-            and _dump(rb[3]) == _dump(ast.parse(tail).body[0])):
+    rb = _body(rot)
+    if len(rb) == 5:
+        rot_area, rb = _rotation_area(rot, src, "SCQubitsCompiler", 5)
+        rot_max, rot_floor = "maximum", False
+        rest = rb[2:]
+    else:
+        if [a.arg for a in rot.args.args] != ["self", "gate", "op_label", "param_label", "args"]:
+            raise TranslatorError("SCQubitsCompiler._rotation_compiler: signature changed")
+        if not (len(rb) == 8 and _same_stmt(rb[0], "targets = gate.targets")
+                and isinstance(rb[1], ast.Assign) and _same(rb[1].targets[0], "area")
+                and _same_stmt(rb[2], "maximum = self.params[param_label][targets[0]]")
+                and isinstance(rb[3], ast.If) and not rb[3].orelse and len(rb[3].body) == 1
+                and isinstance(rb[3].body[0], ast.Assign) and _same(rb[3].body[0].targets[0], "maximum")
+                and _same_stmt(rb[4], 'coeff, tlist = self.generate_pulse_shape(args["shape"], args["num_samples"], '
+                                      'maximum=maximum, area=area)')
+                and _same_stmt(rb[7], "return [Instruction(gate, tlist, pulse_info)]")):
+            raise TranslatorError("SCQubitsCompiler._rotation_compiler: unrecognised statement sequence")
+        env = dict(PI_ENV)
+        env["gate.arg_value"] = "theta"
+        rot_area = ArD(env, src, "SCQubitsCompiler._rotation_compiler area").tr(rb[1].value)
+        ar = ArD({"maximum": "maximum", "area": "area"}, src, "SCQubitsCompiler._rotation_compiler amplitude floor")
+        rot_max = f"if {ar.cond(rb[3].test)} then {ar.tr(rb[3].body[0].value)} else maximum"
+        rot_floor = True
+        rest = rb[5:]
+    if not (_same_stmt(rest[0], 'f = 2 * np.pi * self.params["wq"][targets[0]]')
+            and _dump(rest[1]) == _dump(ast.parse(tail).body[0])):
         raise TranslatorError("SCQubitsCompiler._rotation_compiler: unrecognised statement sequence")
     # _drag_pulse
     dp = _meth(cls, "_drag_pulse")
@@ -766,7 +796,7 @@ elif op_label == "sy":
         else:
             raise TranslatorError(f"cnot_compiler: compilation of gate{gi} not recognised")
         seq.append((name, refs, ang, via))
-    return dict(rules=rules, shape=shape, nsamp=nsamp, drag=drag, rot_area=rot_area, drag_dt=drag_dt, drag_y=drag_y,
+    return dict(rules=rules, shape=shape, nsamp=nsamp, drag=drag, rot_area=rot_area, rot_max=rot_max, rot_floor=rot_floor, drag_dt=drag_dt, drag_y=drag_y,
                 drag_z=drag_z, drag_x=drag_x, rzx_idx=rzx_idx, rzx_area=rzx_area, signed=signed, rzx_rescale=rzx_rescale,
                 seq=seq)
 
@@ -1143,6 +1173,10 @@ deriving Repr
     L.append("variable {α : Type} [DArith α]\n")
     L.append("/-- `_rotation_compiler`: `area=` (`theta` = `gate.arg_value`); `maximum = self.params[param_label][targets[0]]` -/")
     L.append(f"def rotArea (pi theta : α) : α :=\n  {c['rot_area']}\n")
+    L.append("/-- `_rotation_compiler`: the `maximum=` handed to `generate_pulse_shape` for the hardware strength `maximum` of the "
+             "addressed qubit: lowered for small areas (fixes/C18-3.patch) -/")
+    L.append(f"def rotFloor : Bool := {'true' if c['rot_floor'] else 'false'}")
+    L.append(f"def rotMax (maximum area : α) : α :=\n  {c['rot_max']}\n")
     L.append("/-- `generate_pulse_shape`: returned `coeff` for the normalised window value `c0` -/")
     L.append(f"def pulseCoeff (c0 maximum area : α) : α :=\n  {ps['pulse_coeff']}\n")
     L.append("/-- `generate_pulse_shape`: returned `tlist` for the normalised window time `t0` -/")
@@ -1201,7 +1235,7 @@ def render():
     cq_c, cq_m = _cq_compiler(ps), _cq_model()
     sc_c, sc_m = _scq_compiler(ps), _scq_model()
     info = dict(cq_rules=dict(cq_c["rules"]), cq_exch=[(g, a) for g, a, _ in cq_c["exch"]], flips=cq_c["flips"],
-                signed=sc_c["signed"], drops=ps["drops"], resets=ps["resets"], hands=cq_m["hands"],
+                signed=sc_c["signed"], floor=sc_c["rot_floor"], drops=ps["drops"], resets=ps["resets"], hands=cq_m["hands"],
                 cq_defaults=cq_m["defaults"], scq_defaults=sc_m["defaults"], wq_cycle=sc_m["wq_cycle"],
                 cq_native=cq_m["native"], scq_native=sc_m["native"], scq_rules=dict(sc_c["rules"]),
                 nsamp=sc_c["nsamp"], drag=sc_c["drag"], seq=[(n, refs, via) for n, refs, _, via in sc_c["seq"]],
